@@ -350,10 +350,24 @@ func main() {
 	res := common.NewResult("rr")
 	if *common.Replay != "" {
 		var cf struct {
-			Conc    *concCase `json:"conc"`
-			Choices []int     `json:"choices"`
+			Conc    *concCase  `json:"conc"`
+			Watch   *watchCase `json:"watch"`
+			Choices []int      `json:"choices"`
 		}
 		common.ReadReplay(&cf)
+		if cf.Watch != nil {
+			theSeam.park = false
+			x := vrt.Replay(cf.Choices, nil, watchBody(cf.Watch))
+			for _, e := range x.Events {
+				fmt.Println("  ", e)
+			}
+			if k, d := judgeWatch(cf.Watch, x); k != "" {
+				fmt.Println("oracle:", k, d)
+				fmt.Printf("VIOLATION property=C20 replay=%s\n", *common.Replay)
+				os.Exit(1)
+			}
+			return
+		}
 		if cf.Conc != nil {
 			x := vrt.Replay(cf.Choices, nil, concBody(cf.Conc))
 			for _, e := range x.Events {
